@@ -2,8 +2,9 @@
 
 Implementation side: real Driver devices on a real machine (virtual platform); the platform driver objects and the
 platform's rule setters are wrapped *in the harness process* to log every command with its virtual time stamp.
-Entry points: Driver.pulse/enable/timed_enable/disable, control events carrying arbitrary kwargs, coil_player,
-autofire hardware rules with coil overwrites, DualWoundCoil, DigitalOutput.
+Entry points: Driver.pulse/enable/timed_enable/disable (with and without max_wait_ms: PSU-delayed calls), control events
+carrying arbitrary kwargs, coil_player, autofire hardware rules with coil overwrites, DualWoundCoil; second stream
+(harness/common/entry_c08.py): ball-device ejectors, flippers, coil_player, DualWoundCoil, DigitalOutput, driver light.
 Model side: Gen/DriverVerify.lean (translated from driver.py on every run) executed by the fixed interpreter
 Model/PyExec.lean, plus Model/Driver.lean (command log + software timers).
 """
@@ -35,21 +36,27 @@ def _gen_driver_ops():
 
 GEN = [_gen_driver_verify, _gen_driver_ops, _gen_call_sites]
 MANIFEST = {
-    "text": "Proof on a Lean model whose code is regenerated from mpf/devices/driver.py on every run as data for two fixed interpreters: the four get_and_verify_* limit functions (pure subset) and the request methods pulse / enable / timed_enable / disable / _pulse_now / _enable_now / _enable_limit_reached / _notify_psu_and_get_wait_ms / event_* (effectful subset: calls on the platform driver, the delay manager, the PSU and the service controller become a log of effects). Proved for every coil configuration and every argument (ints, floats, NaN, None, bool, str, negative, zero): each limit function either raises or returns a value inside [0, limit]; running the TRANSLATED source of a request and folding its effects gives exactly the verdict, the platform commands (order, powers, durations) and the timed_disable / enable_limit_reached deadlines of the hand model Model/Driver.lean (requests_refine_source; a refused request has touched neither the platform driver nor a timer: refused_request_has_no_effect_in_source; control events equal the methods; the hold-limit callback switches off and leaves no timer); about that model: every command of every op sequence is within the limits, a software-timed enable always has its timer and the timer switches the coil off; the table of direct platform-driver call sites of the whole source tree (regenerated) contains only the modelled paths. The model is also tied to the real Driver by correspondence on every run; the oracle checks every command that reaches the (wrapped) platform driver of a real machine.",
-    "note": "Trusted: Lean kernel + standard axioms; translate/py2lean.py + translate/py2eff.py (Python ast -> St/Cd/Ex/ESt data) and the interpreters Model/PyExec.lean (~150 lines) and Model/PyEff.lean (~130 lines) giving that data Python's meaning; Model/DriverGen.lean applyEff (what a logged call on hw_driver / delay means for the two timers); the refinement theorems assume ConfigSane (platform max_pulse is a number, validated max_hold_duration is None or a number: checked on the real coil of every generated case) and max_wait_ms=None (PSU-delayed requests are covered by the oracle only) (validated differentially against the real functions); floats are modelled as exact micro-units (generated parameters are decimal with <= 6 digits; only comparisons occur); asyncio timers via the repo's TimeTravelLoop. Entry points not driven: ball-device ejectors and flipper sw_flip call the same Driver methods (covered by the Driver theorems, not by their own traces).",
-    "technique": "translator (Python ast -> deep-embedded Lean programs, pure and effectful) + Hoare-style and refinement proofs (hand model = translated source) re-checked against current source + differential correspondence and command-log oracle on the real Driver",
+    "text": "Proof on a Lean model whose code is regenerated from mpf/devices/driver.py on every run as data for two fixed interpreters: the four get_and_verify_* limit functions (pure subset) and the request methods pulse / enable / timed_enable / disable / _pulse_now / _enable_now / _enable_limit_reached / _notify_psu_and_get_wait_ms / event_* (effectful subset: calls on the platform driver, the delay manager, the PSU and the service controller become a log of effects). Proved for every coil configuration and every argument (ints, floats, NaN, None, bool, str, negative, zero): each limit function either raises or returns a value inside [0, limit]; running the TRANSLATED source of a request - with or without max_wait_ms, whatever wait time the PSU answers - and folding its effects gives exactly the verdict, the platform commands (order, powers, durations), the timed_disable / enable_limit_reached deadlines and the PSU-delayed calls (callback, deadline, keyword arguments) of the hand model Model/Driver.lean (requests_refine_source; a refused request has touched neither the platform driver nor a timer nor the pending calls: refused_request_has_no_effect_in_source; the delayed callbacks _pulse_now / _enable_now equal the model's runPend: delayed_calls_refine_source; control events equal the methods; the hold-limit callback switches off and leaves no timer); about that model, by induction over ALL sequences of requests (immediate or PSU-delayed), clock advances and single timer firings in any order the event loop may choose among same-instant timers: every command - sent at once, by a software timer or by a delayed call - is within the limits (cmd_within_limits), a software-timed enable always has its timer registered and not missed and the timer switches the coil off (soft_pulse_always_has_timer, soft_timer_fires*), a coil held by _enable_now since t on a coil with max_hold_duration has its watchdog registered for exactly t + max_hold_duration, not missed, and firing it sends disable (limit_always_armed, limit_timer_disables; for an enable delayed by the PSU t is the moment it is switched ON: delayed_enable_limited_from_switch_on); the table of direct platform-driver call sites of the whole source tree (regenerated) contains only the modelled paths. The model is tied to the real Driver by correspondence on every run (the real event loop's choice among due timers is logged and replayed to the model as fire ops; the real PSU's answer is logged and passed in); the oracle checks every command that reaches the (wrapped) platform driver of a real machine, in a second stream also for ball-device ejectors (pulse / hold / enable: eject_one_ball with jam, retry and per-ball pulse times, ball_search), Flipper sw_flip / sw_release / enable / disable (rules), coil_player (all actions, max_wait_ms), DualWoundCoil, DigitalOutput, a light on a coil (driver-light platform) and autofire rules with coil overwrites.",
+    "note": "Trusted: Lean kernel + standard axioms; translate/py2lean.py + translate/py2eff.py (Python ast -> St/Cd/Ex/ESt data) and the interpreters Model/PyExec.lean (~150 lines) and Model/PyEff.lean (~130 lines) giving that data Python's meaning; Model/DriverGen.lean applyEff (what a logged call on hw_driver / delay means for the two named timers and the nameless delayed calls); the refinement theorems assume ConfigSane (platform max_pulse is a number, validated max_hold_duration is None or a number: checked on the real coil of every generated case) and that collaborators answer rather than raise (a PSU that raises on an ill-typed max_wait_ms is driven by the oracle only); the PSU's wait time is an input of the model (logged from the real PowerSupplyUnit), its busy-time arithmetic is not modelled; floats are modelled as exact micro-units (generated parameters are decimal with <= 6 digits; only comparisons occur; waits are whole milliseconds); asyncio timers via the repo's TimeTravelLoop, the order among timers due at the same millisecond is taken from the real loop, never guessed. advance's fuel bound (2 x pending calls + 3) is not proved sufficient (out of fuel the model clock stops before the unfired timer, so the invariants hold regardless; the correspondence would show a shortfall). The entry points of the second stream (ejectors, flippers, coil_player, dual-wound, digital output, driver light, rules) are covered by the oracle on real traces and by the call-site closure theorem, not by Lean models of their own.",
+    "technique": "translator (Python ast -> deep-embedded Lean programs, pure and effectful) + Hoare-style and refinement proofs (hand model = translated source) re-checked against current source + invariants by induction over all op sequences and timer schedules + differential correspondence (scheduler choices and PSU answers replayed) and command-log oracle on the real Driver and the devices that use it",
     "translated": True,
 }
-RULE = ("a case = one coil limit configuration (max/default pulse ms, pulse power, hold power, allow_enable, "
-        "max_hold_duration) + 1-8 ops (api pulse/enable/timed_enable/disable with parameters from a boundary set incl. "
-        "0, negatives, fractions, >1, NaN, bool, None; control events with kwargs; coil_player entries; autofire rule "
-        "overwrites; dual-wound and digital-output ops; time advances on the 1/8 s grid). non-trivial = at least one op "
-        "carries a non-default parameter or is refused; distinct = canonical JSON of (config, ops)")
-TRUSTED = ["modelled, not verified: asyncio timers (TimeTravelLoop), PSU wait logic (max_wait_ms not exercised), "
-           "hardware platforms' own handling of a command once it is within limits",
+RULE = ("main stream: a case = one coil limit configuration (max/default pulse ms, pulse power, hold power, allow_enable, "
+        "max_hold_duration) + 1-12 ops (api pulse/enable/timed_enable/disable with parameters from a boundary set incl. "
+        "0, negatives, fractions, >1, NaN, bool, None; the same with max_wait_ms from {None, 0, 50..1000, -5, 2.5, True, str} "
+        "behind a PSU kept busy by earlier requests, incl. directed coincidences of a delayed call with the hold-limit timer / "
+        "timed_disable at the same millisecond and queues of delayed calls; control events with kwargs; coil_player entries; "
+        "autofire rule overwrites; dual-wound ops; machine-variable defaults; time advances on the 1/8 s grid). second stream: "
+        "limits for ten coils + device options (jam/retry/eject times, max wait, enable time, release time, player entries) + "
+        "3-10 entry-point ops. non-trivial = at least one op carries a non-default parameter or is refused / any "
+        "entry-point op; distinct = canonical JSON of the case")
+TRUSTED = ["modelled, not verified: asyncio timers (TimeTravelLoop; same-instant order replayed from the real loop), the PSU's "
+           "busy-time arithmetic (its answer is an input), hardware platforms' own handling of a command once it is within limits",
            "translate/py2lean.py + Model/PyExec.lean (Python subset semantics), differential-tested on every run"]
 ASSUMPTIONS = ["float parameters are decimal values with at most 6 fractional digits (exact in the micro-unit model)",
-               "a limit configured as 0/None counts as unset (the code's own truthiness rule)"]
+               "a limit configured as 0/None counts as unset (the code's own truthiness rule)",
+               "PSU wait times are whole milliseconds (integer pulse lengths and release_wait_ms on the ms grid)",
+               "collaborator objects (PSU, delay manager, platform driver) answer rather than raise"]
 
 NAN = float("nan")
 MS_VALUES = [None, None, 0, 1, 5, 10, 20, 30, 50, 51, 100, 255, 256, 300, 1000, -1, -5, -100, True, 10.0, 2.5, "10"]
@@ -808,6 +815,61 @@ def gen_case(r):
     return cfg, gen_player(r), gen_af(r), [gen_op(r) for _ in range(r.randint(1, 8))]
 
 
+def run_entry_case(ctx, case, sample=True):
+    """second stream (harness/common/entry_c08.py): ejectors, flippers, coil_player, dual-wound, digital output, driver
+    light, hardware rules on one real machine; the oracle on the command log of EVERY coil"""
+    from harness.common import entry_c08 as E
+    run = E.EntryRun(case)
+    full = dict(case, stream="entry")
+    try:
+        run.start()
+    except BootError:
+        ctx.count("entry_config_rejected")
+        ctx.evaluated(full, False)
+        return True
+    ok = True
+    try:
+        results = []
+        for op in case["ops"]:
+            res = run.do(op)
+            results.append(res)
+            ctx.count("entry_op_" + op[0] + ("_" + str(op[1]) if op[0] in ("search", "flip", "player") else ""))
+            ctx.count("entry_res_" + res.split(":")[0])
+            if run.dead:
+                break
+        if not run.dead:
+            try:
+                run.vm.advance(4.0)
+            except BaseException:
+                pass
+        end = round(run.vm.now() * 1000)
+        ctx.evaluated(full, any(o[0] != "advance" for o in case["ops"]), sample=sample)
+        m = run.vm.machine
+        for name in E.COILS:
+            log = run.logs[name]
+            if not log:
+                continue
+            ctx.count("entry_cmds_" + name, len(log))
+            ok = check_log(ctx, dict(full, coil=name), m.coils[name], log, end) and ok
+            pend = soft_pulse_check(ctx, full, log, None)
+            if pend is not None and not run.dead:
+                ctx.fail("soft-pulse-not-disabled", dict(full, coil=name), {"enabled_at_tick": pend, "log": log[-6:]})
+                ok = False
+        ctx.count("entry_cmds_digital_output", len(run.do_log))
+        # observation outside the property (not a failure): EnableCoilEjector arms its switch-off at request time; when the
+        # PSU delays the enable past eject_coil_enable_time the disable comes first and the coil stays on
+        log = run.logs["c_en"]
+        if log and log[-1][0] == "enable" and any(o[0] == "eject_enable" for o in case["ops"]) and not run.dead \
+                and not m.coils["c_en"].config["max_hold_duration"]:
+            dis = [t for n, t, a, src in log if n == "disable"]
+            if dis and dis[-1] < log[-1][1] and log[-1][3] == "enable":
+                ctx.count("observed_outside_property_enable_ejector_left_on_after_psu_delay")
+                ctx.notes.setdefault("observed_outside_property_enable_ejector_left_on_after_psu_delay", full)
+    finally:
+        run.stop()
+    return ok
+
+
 def run(ctx):
     model = None if getattr(ctx, "model_unavailable", False) else leanproc.LeanProc(ID)
     try:
@@ -815,6 +877,9 @@ def run(ctx):
             r = ctx.rng("case", i)
             cfg, player, af, ops = gen_case(r)
             run_case(ctx, cfg, player, af, ops, model, r)
+        from harness.common import entry_c08
+        for i in range(ctx.n(80, 1200)):
+            run_entry_case(ctx, entry_c08.gen_entry_case(ctx.rng("entry", i)))
     finally:
         if model is not None:
             model.close()
@@ -822,4 +887,7 @@ def run(ctx):
 
 def replay(ctx, rep):
     c = rep["case"]
+    if c.get("stream") == "entry":
+        run_entry_case(ctx, {k: c[k] for k in ("limits", "dev", "ops")})
+        return
     run_case(ctx, c["cfg"], c["player"], c["af"], [untok_op(t) for t in c["ops"]], None, ctx.rng("replay"))
